@@ -129,14 +129,16 @@ RES = {"line": ("res_line", {"from": ("p_from_mw", "q_from_mvar", "i_from_ka"), 
                                    "lv": ("p_lv_mw", "q_lv_mvar", "i_lv_ka")})}
 
 
-def build_measurements(net, g, mode):
+def build_measurements(net, g, mode, auto_zero=False):
     """list of measurement tuples (type, element_type, value, std, element, side) forming an observable set; None if mode impossible"""
     node, edges = topology(net)
     groups = {}
     for b, n in node.items():
         groups.setdefault(n, []).append(b)
     meas = []
-    inj, _ = balance.element_consumption(net, True)      # bus injections from the element result tables (load reference)
+    inj, kinds = balance.element_consumption(net, True)      # bus injections from the element result tables (load reference)
+    pos = {b: i for i, b in enumerate(net.bus.index)}
+    n_zero = 0
     sn = float(net.sn_mva)
 
     def std(kind, vn=None):
@@ -189,6 +191,9 @@ def build_measurements(net, g, mode):
             n_flow += 1
     elif mode == "inj":
         for n in groups:
+            if auto_zero and not any(kinds[pos[b]] for b in groups[n]) and g.B(0.7):
+                n_zero += 1          # left to zero_injection="no_inj_bus" / "zero_pwr_bus"
+                continue
             add_inj(n)
             n_inj += 1
     elif mode == "mixed":
@@ -219,10 +224,14 @@ def build_measurements(net, g, mode):
                         n_inj += 1
                     else:
                         return None, {}
-    # voltage magnitude: at least one per island
+    # voltage magnitudes: injection-only sets are badly conditioned and have low-voltage twin solutions unless most buses carry a
+    # voltage measurement; flow-based sets need one per island
     for root_key, nodes in islands.items():
         buses = [b for n in nodes if n in groups for b in groups[n]]
-        k = g.I(1, len(buses)) if g.B(0.5) else 1
+        if mode == "tree":
+            k = g.I(1, len(buses)) if g.B(0.5) else 1
+        else:
+            k = len(buses) if g.B(0.7) else g.I((len(buses) + 1) // 2, len(buses))
         for b in g.rng.choice(buses, size=k, replace=False):
             add_v(int(b))
     n_base = len(meas)
@@ -240,7 +249,8 @@ def build_measurements(net, g, mode):
     for b in node:
         if g.B(red * 0.5):
             add_v(b)
-    info = {"n_base": n_base, "n_meas": len(meas), "n_inj": n_inj, "n_flow": n_flow, "n_islands": len(islands), "red": red,
+    info = {"n_base": n_base, "n_meas": len(meas), "n_inj": n_inj, "n_flow": n_flow, "n_islands": len(islands), "red": red, "n_zero_inj_groups": n_zero,
+            "min_island_nodes": min(len(v) for v in islands.values()),
             "n_nodes": len(groups) + len({e[1] for e in edges if isinstance(e[1], tuple) and e[1][0] == "star"})}
     return meas, info
 
@@ -278,6 +288,78 @@ def compare(net, truth, tol_v, tol_a, tol_s):
     return out
 
 
+
+def t3_side_active(net):
+    """(trafo3w index, side) -> True iff that side branch is part of the calculated network: transformer in service, side bus
+    energized, no open t3 switch at that side"""
+    live = net.res_bus.vm_pu.notna()
+    sw = net.switch
+    opensw = {(int(r.element), int(r.bus)) for r in sw[~sw.closed & (sw.et == "t3")].itertuples()}
+    act = {}
+    for ti, r in net.trafo3w.iterrows():
+        for side in ("hv", "mv", "lv"):
+            b = int(r[side + "_bus"])
+            act[(ti, side)] = bool(r.in_service and live.get(b, False) and (ti, b) not in opensw)
+    return act
+
+
+def t3_mismapped(net, meas):
+    """trafo3w measurements that pandapower.estimation.ppc_conversion._add_measurements_to_trafo3w assigns to a wrong ppci branch.
+    pandapower: position(side k, trafo j) = off + k * n_hv_active + rank_hv(j) for hv-active j (others dropped);
+    correct:    off + sum_{k'<k} n_active(k') + rank_k(j) for k-active (j, k)."""
+    if not len(net.trafo3w):
+        return []
+    act = t3_side_active(net)
+    idx = list(net.trafo3w.index)
+    sides = ("hv", "mv", "lv")
+    n_act = {s_: sum(act[(j, s_)] for j in idx) for s_ in sides}
+    rank = {s_: {} for s_ in sides}
+    for s_ in sides:
+        k = 0
+        for j in idx:
+            if act[(j, s_)]:
+                rank[s_][j] = k
+                k += 1
+    n_total = sum(n_act.values())
+    bad = []
+    for t, et, val, sd, el, side in meas:
+        if et != "trafo3w":
+            continue
+        k = sides.index(side)
+        right = sum(n_act[s_] for s_ in sides[:k]) + rank[side][el] if act[(el, side)] else None
+        got = k * n_act["hv"] + rank["hv"][el] if act[(el, "hv")] else None
+        if got != right:
+            bad.append({"trafo3w": el, "side": side, "assigned_position": got, "correct_position": right,
+                        "out_of_range": bool(got is not None and got >= n_total)})
+    return bad
+
+
+def no_inj_mask_misaligned(net):
+    """re-evaluates the expression of ppc_conversion._add_zero_injection ('no_inj_bus' branch) on the input tables: it combines a
+    Series indexed by element labels with one indexed by bus labels, so the boolean mask does not fit the element table"""
+    for element in ["load", "motor", "sgen", "storage", "ward", "xward", "asymmetric_load", "asymmetric_sgen"]:
+        tab = net[element]
+        if len(tab) == 0:
+            continue
+        try:
+            in_service = (tab["in_service"]) & (net.bus["in_service"][tab["bus"].values])
+            tab["bus"][in_service]
+        except IndexError:
+            return True
+        except Exception:  # noqa
+            return False
+    return False
+
+
+def call(fn, net, shim, **kw):
+    """returns (status, value): ok / exc"""
+    with numpy_shim(shim):
+        try:
+            return "ok", fn(net, **kw)
+        except Exception as e:  # noqa
+            return "exc", e
+
+
 def run_case(seed, tier, case_no):
     g = netgen.G(seed)
     profile = g.C(PROFILES)
@@ -288,47 +370,122 @@ def run_case(seed, tier, case_no):
     if status != "ok":
         return common.case(common.net_digest(net), nontrivial=False, tags=tags, skipped="pf_" + status, sample=sample)
     mode = g.C(["inj", "tree", "mixed"])
-    meas, info = build_measurements(net, g, mode)
-    if meas is None:
-        mode = "inj"
-        meas, info = build_measurements(net, g, mode)
-    order = g.rng.permutation(len(meas)) if g.B(0.7) else np.arange(len(meas))
-    opts = {"init": g.C(["flat", "flat", "results"])}
+    opts = {"init": g.C(["flat", "flat", "flat", "results"])}
+    if g.B(0.3):
+        opts["zero_injection"] = g.C(["zero_pwr_bus", "no_inj_bus"])
+    if g.B(0.2):
+        opts["algorithm"] = "irwls"
     if g.B(0.3):
         opts["tolerance"] = 1e-8
+    auto_zero = "zero_injection" in opts
+    meas, info = build_measurements(net, g, mode, auto_zero)
+    if meas is None:
+        mode = "inj"
+        meas, info = build_measurements(net, g, mode, auto_zero)
+    order = g.rng.permutation(len(meas)) if g.B(0.7) else np.arange(len(meas))
     sample.update(mode=mode, options=opts, **info)
-    tags |= {"mode:" + mode, "init:" + opts["init"]}
+    tags |= {"mode:" + mode, "init:" + opts["init"], "red:%s" % info["red"], "alg:" + opts.get("algorithm", "wls"),
+             "zero_injection:" + opts.get("zero_injection", "aux_bus")}
+    if info["n_zero_inj_groups"]:
+        tags.add("zero_inj_unmeasured")
+    if any(m[0] == "i" for m in meas):
+        tags.add("i_meas")
+    if len(net.trafo3w) and any(m[1] == "trafo3w" for m in meas):
+        tags.add("t3_meas")
+    if len(set(topology(net)[0].values())) < int(net.res_bus.vm_pu.notna().sum()):
+        tags.add("fused_buses")
+    if info["n_islands"] > 1:
+        tags.add("multi_island")
     truth = copy.deepcopy(net)
     write_measurements(net, meas, order)
     digest = common.net_digest(net, {"o": opts})
     viols = []
-    # 1. the call as a user would make it
-    shim = False
-    try:
-        res = estimate(net, **opts)
-    except Exception as e:  # noqa
-        if removed_numpy_api(e):
-            viols.append(common.viol("estimate() raises %s: %s" % (type(e).__name__, e), mechanism="numpy_removed_in1d_linalg",
-                                     numpy=np.__version__))
-            shim = True
-            tags.add("numpy_shim")
-        else:
-            viols.append(common.viol("estimate() raised %s: %s on an observable exact measurement set" % (type(e).__name__, e),
-                                     mode=mode, options=opts, info=info))
-            return common.case(digest, nontrivial=True, tags=tags, violations=viols, sample=sample)
-    if shim:
-        with numpy_shim(True):
-            try:
-                res = estimate(net, **opts)
-            except Exception as e:  # noqa
-                viols.append(common.viol("estimate() raised %s: %s on an observable exact measurement set" % (type(e).__name__, e),
-                                         mode=mode, options=opts, info=info))
-                return common.case(digest, nontrivial=True, tags=tags, violations=viols, sample=sample)
-    ok = res["success"] if isinstance(res, dict) else bool(res)
-    if not ok:
-        viols.append(common.viol("estimate() did not succeed on an observable exact measurement set", mode=mode, options=opts, info=info))
-        return common.case(digest, nontrivial=True, tags=tags, violations=viols, sample=sample)
-    diffs = compare(net, truth, 1e-6, 1e-4, 1e-4)
-    for what, size in diffs:
-        viols.append(common.viol("%s differs from the power flow by %.3e" % (what, size), mode=mode, options=opts, info=info))
-    return common.case(digest, nontrivial=True, tags=tags, violations=viols, sample=sample, extra={"n_meas": len(meas)})
+    extra = {"n_meas": len(meas), "estimates": 0}
+    wit = dict(mode=mode, options=opts, info=info, seed=seed)
+
+    def done(skipped=None):
+        return common.case(digest, nontrivial=skipped is None, tags=tags, violations=viols, sample=sample, extra=extra,
+                           skipped=skipped, evals=max(1, extra["estimates"]))
+
+    # ---- the call as a user makes it; exceptions of the two known, unrelated defects are recorded once and side-stepped
+    state = {"shim": False}
+
+    def attempt(fn, n, **kw):
+        for _ in range(3):
+            st, res = call(fn, n, state["shim"], **kw)
+            extra["estimates"] += 1
+            if st == "exc" and not state["shim"] and removed_numpy_api(res):
+                viols.append(common.viol("%s() raises %s: %s" % (fn.__name__, type(res).__name__, res),
+                                         mechanism="numpy_removed_in1d_linalg", numpy=np.__version__))
+                tags.add("numpy_shim")
+                state["shim"] = True
+                continue
+            if st == "exc" and isinstance(res, IndexError) and kw.get("zero_injection") == "no_inj_bus" and no_inj_mask_misaligned(truth):
+                viols.append(common.viol("estimate() raises IndexError: %s with zero_injection='no_inj_bus'" % res,
+                                         mechanism="no_inj_bus_mask_misaligned", **wit))
+                tags.add("no_inj_bus_indexerror")
+                kw["zero_injection"] = "zero_pwr_bus"      # selects the same buses for these inputs; keep monitoring
+                continue
+            break
+        return st, res
+
+    st, res = attempt(estimate, net, **opts)
+    bad_t3 = t3_mismapped(truth, meas)
+    if bad_t3:
+        tags.add("t3_partially_active_measured")
+
+    def judge(st, res, n):
+        """None if the estimate on n reproduces the power flow, else (kind, text)"""
+        if st == "exc":
+            return "exc", "estimate() raised %s: %s" % (type(res).__name__, res)
+        if not (res["success"] if isinstance(res, dict) else bool(res)):
+            return "fail", "estimate() did not succeed"
+        d = compare(n, truth, 1e-6, 1e-4, 1e-4)
+        if d:
+            return "diff", "; ".join("%s differs by %.3e" % x for x in d[:4])
+        return None
+
+    j = judge(st, res, net)
+    if j is not None and bad_t3:
+        viols.append(common.viol(j[1] + " (measurements on three-winding transformers are assigned to wrong branches)",
+                                 mechanism="trafo3w_meas_wrong_branch_when_side_inactive", mismapped=bad_t3, **wit))
+        return done()
+    if j is not None and j[0] in ("fail", "diff") and opts["init"] == "flat":
+        # Gauss-Newton from a flat start may diverge or end in another stationary point (numerical method, like alternate
+        # power-flow roots); the measurement model is still judged from the documented init="results" start
+        n2 = copy.deepcopy(truth)
+        write_measurements(n2, meas, order)
+        o2 = dict(opts, init="results")
+        st2, res2 = attempt(estimate, n2, **o2)
+        j2 = judge(st2, res2, n2)
+        if j2 is None:
+            tags.add("flat_start_" + j[0])
+            return done(skipped="flat_start_" + ("not_converged" if j[0] == "fail" else "other_stationary_point"))
+        j = (j2[0], j2[1] + " (init='results'; flat start: %s)" % j[1])
+    if j is not None:
+        viols.append(common.viol(j[1] + " on an observable exact measurement set", **wit))
+        return done()
+    tags.add("estimate_ok")
+    # ---- bad data tests on the same exact, redundant set (WLS): nothing may be flagged
+    n_state = 2 * (int(truth.res_bus.vm_pu.notna().sum()) + len(truth.trafo3w) + len(truth.line))
+    if opts.get("algorithm", "wls") == "wls" and "zero_injection" not in opts and len(meas) >= n_state + 5:
+        n3 = copy.deepcopy(truth)
+        write_measurements(n3, meas, order)
+        st3, flagged = attempt(chi2_analysis, n3, init=opts["init"], maximum_iterations=50)
+        extra["chi2_tests"] = 1
+        if st3 == "exc":
+            viols.append(common.viol("chi2_analysis() raised %s: %s" % (type(flagged).__name__, flagged), **wit))
+        elif flagged is not False:
+            viols.append(common.viol("chi2_analysis() returned %r (bad data detected) on exact measurements" % (flagged,), **wit))
+        if info["red"] == 1.0 and info["min_island_nodes"] >= 2:      # no critical measurement in such a set
+            n4 = copy.deepcopy(truth)
+            write_measurements(n4, meas, order)
+            globals()['LAST'] = copy.deepcopy(n4)
+            st4, good = attempt(remove_bad_data, n4, init=opts["init"], maximum_iterations=50)
+            extra["rn_max_tests"] = 1
+            if st4 == "exc":
+                viols.append(common.viol("remove_bad_data() raised %s: %s" % (type(good).__name__, good), **wit))
+            elif good is not True or len(n4.measurement) != len(meas):
+                viols.append(common.viol("remove_bad_data() returned %r and removed %d exact measurements" % (
+                    good, len(meas) - len(n4.measurement)), **wit))
+    return done()
